@@ -8,9 +8,9 @@ package main
 
 import (
 	"fmt"
-	"os"
 	"go/token"
 	"go/types"
+	"os"
 	"sort"
 	"strconv"
 
@@ -380,23 +380,23 @@ func (P *Prog) constGlobalValue(name string) *Term {
 	g := P.global(name)
 	if g == nil || g.Object() == nil || g.Object().Exported() {
 		if os.Getenv("CG_DEBUG") != "" {
-		println("constGlobal", name, 1)
-	}
-	return nil
+			println("constGlobal", name, 1)
+		}
+		return nil
 	}
 	sts := P.globalStores(g)
 	if len(sts) == 0 {
 		if os.Getenv("CG_DEBUG") != "" {
-		println("constGlobal", name, 2)
-	}
-	return nil
+			println("constGlobal", name, 2)
+		}
+		return nil
 	}
 	for _, st := range sts {
 		if !isInitFunc(st.Parent()) || st.Block() != sts[0].Block() {
 			if os.Getenv("CG_DEBUG") != "" {
-		println("constGlobal", name, 3)
-	}
-	return nil
+				println("constGlobal", name, 3)
+			}
+			return nil
 		}
 	}
 	for _, fn := range P.Funcs {
@@ -406,9 +406,9 @@ func (P *Prog) constGlobalValue(name string) *Term {
 		for _, w := range P.effects.summary(fn).writes {
 			if w.kind == "global" && w.global == name {
 				if os.Getenv("CG_DEBUG") != "" {
-		println("constGlobal", name, 4)
-	}
-	return nil
+					println("constGlobal", name, 4)
+				}
+				return nil
 			}
 		}
 	}
@@ -455,36 +455,36 @@ func (P *Prog) constGlobalValue(name string) *Term {
 					case *ssa.UnOp:
 						if u.Op != token.MUL {
 							if os.Getenv("CG_DEBUG") != "" {
-		println("constGlobal", name, 5)
-	}
-	return nil
+								println("constGlobal", name, 5)
+							}
+							return nil
 						}
 					case *ssa.Store:
 						if u.Addr != ssa.Value(g) || !isInitFunc(fn) {
 							if os.Getenv("CG_DEBUG") != "" {
-		println("constGlobal", name, 6)
-	}
-	return nil
+								println("constGlobal", name, 6)
+							}
+							return nil
 						}
 					case *ssa.FieldAddr:
 						if !okAddr(u, isInitFunc(fn)) {
 							if os.Getenv("CG_DEBUG") != "" {
-		println("constGlobal", name, 7)
-	}
-	return nil
+								println("constGlobal", name, 7)
+							}
+							return nil
 						}
 					case *ssa.IndexAddr:
 						if !okAddr(u, isInitFunc(fn)) {
 							if os.Getenv("CG_DEBUG") != "" {
-		println("constGlobal", name, 8)
-	}
-	return nil
+								println("constGlobal", name, 8)
+							}
+							return nil
 						}
 					default:
 						if os.Getenv("CG_DEBUG") != "" {
-		println("constGlobal", name, 9)
-	}
-	return nil
+							println("constGlobal", name, 9)
+						}
+						return nil
 					}
 				}
 			}
@@ -501,9 +501,9 @@ func (P *Prog) constGlobalValue(name string) *Term {
 	})
 	if !closedConst(v) {
 		if os.Getenv("CG_DEBUG") != "" {
-		println("constGlobal", name, 10, v.String())
-	}
-	return nil
+			println("constGlobal", name, 10, v.String())
+		}
+		return nil
 	}
 	P.constGlobals[name] = v
 	return v
